@@ -10,8 +10,8 @@ import (
 	"os/exec"
 	"path/filepath"
 	"runtime"
-	"strconv"
 	"sort"
+	"strconv"
 	"strings"
 	"sync"
 
@@ -476,9 +476,9 @@ func bceCrossCheck(c *Ctx, r *Report, e *lfEngine) {
 	}
 	// line ranges of analysed functions
 	type span struct {
-		file       string
-		from, to   int
-		name       string
+		file     string
+		from, to int
+		name     string
 	}
 	var spans []span
 	for fn := range e.analysed {
